@@ -5,28 +5,24 @@
 //! Concurrent part (E3): shuttle::check_dfs (exhaustive, no sampling) over threads sharing one
 //! StatelessTransportState; scheduling points are inserted by a yielding Cipher wrapper before
 //! and after every inner encrypt/decrypt, so every interleaving of the pre-cipher / cipher /
-//! post-cipher segments of the calls is explored. A free-running real-thread run of the same
-//! bodies is executed in addition and labelled a sample.
+//! post-cipher segments of the calls is explored. If /repo/src contains any synchronisation
+//! primitive, the exploration is repeated on a copy of the sources whose std/core sync primitives
+//! are mapped to shuttle's (harness-c16x), making them scheduling points too. A free-running
+//! real-thread run of the same bodies is executed in addition and labelled a sample.
 
 use super::common::*;
 use crate::{
     ctx::{Ctx, Tier},
-    exec::{key_bytes, payload_bytes, Cap, Config, Exec, Msg, Op, Side, WireMeta},
-    seam::{backend_resolver, Backend},
+    exec::{payload_bytes, Cap, Config, Exec, Msg, Op, Side, WireMeta},
+    seam::Backend,
     sess::{self, Mode},
 };
 use rayon::prelude::*;
 use refnoise::{CipherAlg, DhAlg, HashAlg, Proto};
 use serde_json::json;
-use snow::{
-    params::{CipherChoice, DHChoice, HashChoice},
-    resolvers::{BoxedCryptoResolver, CryptoResolver},
-    types::{Cipher, Dh, Hash, Random},
-    Builder, StatelessTransportState,
-};
 use std::sync::{
-    atomic::{AtomicBool, AtomicU64, Ordering},
-    Arc, Mutex,
+    atomic::{AtomicU64, Ordering},
+    Mutex,
 };
 
 // ---------------------------------------------------------------------------------------------
@@ -179,227 +175,9 @@ fn permute(a: &mut Vec<usize>, k: usize, out: &mut Vec<Vec<usize>>) {
 // ---------------------------------------------------------------------------------------------
 // concurrent part
 
-static YIELD_ON: AtomicBool = AtomicBool::new(false);
-static REAL_THREADS: AtomicBool = AtomicBool::new(false);
-
-static YIELDS: AtomicU64 = AtomicU64::new(0);
-fn seam_yield() {
-    if YIELD_ON.load(Ordering::SeqCst) {
-        YIELDS.fetch_add(1, Ordering::SeqCst);
-        if REAL_THREADS.load(Ordering::SeqCst) {
-            std::thread::yield_now();
-        } else {
-            shuttle::thread::yield_now();
-        }
-    }
-}
-
-struct YieldCipher(Box<dyn Cipher>);
-impl Cipher for YieldCipher {
-    fn name(&self) -> &'static str {
-        self.0.name()
-    }
-    fn set(&mut self, k: &[u8; 32]) {
-        self.0.set(k);
-    }
-    fn encrypt(&self, n: u64, a: &[u8], p: &[u8], o: &mut [u8]) -> usize {
-        seam_yield();
-        let r = self.0.encrypt(n, a, p, o);
-        seam_yield();
-        r
-    }
-    fn decrypt(&self, n: u64, a: &[u8], c: &[u8], o: &mut [u8]) -> Result<usize, snow::Error> {
-        seam_yield();
-        let r = self.0.decrypt(n, a, c, o);
-        seam_yield();
-        r
-    }
-    fn rekey(&mut self) {
-        self.0.rekey();
-    }
-}
-struct YieldResolver(BoxedCryptoResolver);
-impl CryptoResolver for YieldResolver {
-    fn resolve_rng(&self) -> Option<Box<dyn Random>> {
-        self.0.resolve_rng()
-    }
-    fn resolve_dh(&self, c: &DHChoice) -> Option<Box<dyn Dh>> {
-        self.0.resolve_dh(c)
-    }
-    fn resolve_hash(&self, c: &HashChoice) -> Option<Box<dyn Hash>> {
-        self.0.resolve_hash(c)
-    }
-    fn resolve_cipher(&self, c: &CipherChoice) -> Option<Box<dyn Cipher>> {
-        self.0.resolve_cipher(c).map(|x| Box::new(YieldCipher(x)) as Box<dyn Cipher>)
-    }
-}
-
-/// a fresh NN session in stateless mode (fixed ephemerals: every execution has the same keys)
-fn stateless_pair(cipher: CipherAlg, b: Backend) -> (StatelessTransportState, StatelessTransportState) {
-    let name = format!("Noise_NN_25519_{}_SHA256", cipher.name());
-    let (ei, er) = (key_bytes(3), key_bytes(4));
-    let mk = |init: bool| {
-        let bld = Builder::with_resolver(name.parse().unwrap(), Box::new(YieldResolver(backend_resolver(b)))).fixed_ephemeral_key_for_testing_only(if init { &ei } else { &er });
-        if init {
-            bld.build_initiator().unwrap()
-        } else {
-            bld.build_responder().unwrap()
-        }
-    };
-    let (mut i, mut r) = (mk(true), mk(false));
-    let (mut m, mut o) = (vec![0u8; 256], vec![0u8; 256]);
-    let n = i.write_message(&[], &mut m).unwrap();
-    r.read_message(&m[..n], &mut o).unwrap();
-    let n = r.write_message(&[], &mut m).unwrap();
-    i.read_message(&m[..n], &mut o).unwrap();
-    (i.into_stateless_transport_mode().unwrap(), r.into_stateless_transport_mode().unwrap())
-}
-
-#[derive(Clone, Debug, serde::Serialize, serde::Deserialize)]
-pub enum Call {
-    /// write on the initiator (true) / responder (false) side object
-    Write { init: bool, nonce: u64, plen: usize },
-    /// read on that side of the message the peer writes under `nonce` with `plen` payload bytes
-    Read { init: bool, nonce: u64, plen: usize },
-}
-
-fn run_call(c: &Call, si: &StatelessTransportState, sr: &StatelessTransportState, msgs: &dyn Fn(bool, u64, usize) -> Vec<u8>) -> Result<Vec<u8>, String> {
-    match c {
-        Call::Write { init, nonce, plen } => {
-            let st = if *init { si } else { sr };
-            let mut out = vec![0u8; plen + 16];
-            st.write_message(*nonce, &payload_bytes(*plen, *nonce as u8), &mut out).map(|n| out[..n].to_vec()).map_err(|e| format!("{e:?}"))
-        },
-        Call::Read { init, nonce, plen } => {
-            let st = if *init { si } else { sr };
-            let m = msgs(!*init, *nonce, *plen);
-            let mut out = vec![0u8; *plen + 16];
-            st.read_message(*nonce, &m, &mut out).map(|n| out[..n].to_vec()).map_err(|e| format!("{e:?}"))
-        },
-    }
-}
-
-/// sequential reference: what each call returns when nothing runs concurrently
-fn expected(cipher: CipherAlg, b: Backend, threads: &[Vec<Call>]) -> (Vec<Vec<Result<Vec<u8>, String>>>, impl Fn(bool, u64, usize) -> Vec<u8> + Clone + Send + Sync + 'static) {
-    YIELD_ON.store(false, Ordering::SeqCst);
-    let (si, sr) = stateless_pair(cipher, b);
-    let (si, sr) = (Arc::new(si), Arc::new(sr));
-    let (si2, sr2) = (si.clone(), sr.clone());
-    // genuine messages are computed sequentially, up front, on a session of the same keys
-    let mut table: std::collections::HashMap<(bool, u64, usize), Vec<u8>> = std::collections::HashMap::new();
-    for c in threads.iter().flatten() {
-        if let Call::Read { init, nonce, plen } = c {
-            let from_init = !*init;
-            let st = if from_init { &si2 } else { &sr2 };
-            let mut out = vec![0u8; plen + 16];
-            // no message exists under the reserved nonce: any well-formed bytes do (the read must fail)
-            let wn = if *nonce == u64::MAX { 0 } else { *nonce };
-            let n = st.write_message(wn, &payload_bytes(*plen, *nonce as u8), &mut out).unwrap_or(0);
-            table.insert((from_init, *nonce, *plen), out[..n].to_vec());
-        }
-    }
-    let table = Arc::new(table);
-    let msgs = move |from_init: bool, nonce: u64, plen: usize| -> Vec<u8> { table.get(&(from_init, nonce, plen)).cloned().unwrap_or_default() };
-    let exp = threads.iter().map(|t| t.iter().map(|c| run_call(c, &si, &sr, &msgs)).collect()).collect();
-    (exp, msgs)
-}
-
-fn mixes() -> Vec<(&'static str, Vec<Vec<Call>>)> {
-    let w = |init, nonce, plen| Call::Write { init, nonce, plen };
-    let r = |init, nonce, plen| Call::Read { init, nonce, plen };
-    vec![
-        ("2x2 write/write same direction, different nonces", vec![vec![w(true, 1, 5), w(true, 2, 9)], vec![w(true, 3, 5), w(true, 1 << 40, 7)]]),
-        ("2x2 write/write same nonce", vec![vec![w(true, 7, 5), w(true, 7, 5)], vec![w(true, 7, 5), w(true, 7, 6)]]),
-        ("2x2 write/read same object (both directions)", vec![vec![w(true, 1, 5), r(true, 2, 6)], vec![r(true, 1, 4), w(true, 2, 8)]]),
-        ("2x2 read/read", vec![vec![r(false, 1, 5), r(false, 2, 9)], vec![r(false, 3, 5), r(false, 1, 5)]]),
-        ("3x1 write/write/read", vec![vec![w(false, 4, 3)], vec![w(false, 5, 3)], vec![r(false, 4, 6)]]),
-        ("3x1 reads incl. a rejected one", vec![vec![r(true, 9, 3)], vec![r(true, 10, 3)], vec![Call::Read { init: true, nonce: u64::MAX, plen: 3 }]]),
-    ]
-}
-
-static EXECUTIONS: AtomicU64 = AtomicU64::new(0);
-
-fn explore_mix(cipher: CipherAlg, b: Backend, threads: Vec<Vec<Call>>) -> (u64, Vec<String>) {
-    let (exp, msgs) = expected(cipher, b, &threads);
-    let bad: Arc<Mutex<Vec<String>>> = Arc::new(Mutex::new(vec![]));
-    let bad2 = bad.clone();
-    let before = EXECUTIONS.load(Ordering::SeqCst);
-    let exp = Arc::new(exp);
-    let threads = Arc::new(threads);
-    REAL_THREADS.store(false, Ordering::SeqCst);
-    shuttle::check_dfs(
-        move || {
-            YIELD_ON.store(false, Ordering::SeqCst);
-            let (si, sr) = stateless_pair(cipher, b);
-            let (si, sr) = (Arc::new(si), Arc::new(sr));
-            YIELD_ON.store(true, Ordering::SeqCst);
-            EXECUTIONS.fetch_add(1, Ordering::SeqCst);
-            let mut hs = vec![];
-            for (t, calls) in threads.iter().enumerate() {
-                let (si, sr, calls, exp, bad, msgs) = (si.clone(), sr.clone(), calls.clone(), exp.clone(), bad2.clone(), msgs.clone());
-                hs.push(shuttle::thread::spawn(move || {
-                    for (k, c) in calls.iter().enumerate() {
-                        let got = run_call(c, &si, &sr, &msgs);
-                        if got != exp[t][k] {
-                            let mut g = bad.lock().unwrap();
-                            if g.len() < 3 {
-                                g.push(format!("thread {t} call {k} {c:?}: concurrent result differs from the sequential function"));
-                            }
-                        }
-                    }
-                }));
-            }
-            for h in hs {
-                h.join().unwrap();
-            }
-            YIELD_ON.store(false, Ordering::SeqCst);
-        },
-        None,
-    );
-    let n = EXECUTIONS.load(Ordering::SeqCst) - before;
-    let v = bad.lock().unwrap().clone();
-    (n, v)
-}
-
-/// the same bodies on real threads, free running (a labelled sample, not the deciding step)
-fn stress_mix(cipher: CipherAlg, b: Backend, threads: Vec<Vec<Call>>, rounds: usize) -> (u64, Vec<String>) {
-    let (exp, msgs) = expected(cipher, b, &threads);
-    REAL_THREADS.store(true, Ordering::SeqCst);
-    YIELD_ON.store(false, Ordering::SeqCst);
-    let (si, sr) = stateless_pair(cipher, b);
-    let (si, sr) = (Arc::new(si), Arc::new(sr));
-    YIELD_ON.store(true, Ordering::SeqCst);
-    let bad: Arc<Mutex<Vec<String>>> = Arc::new(Mutex::new(vec![]));
-    let exp = Arc::new(exp);
-    let mut hs = vec![];
-    // each logical thread is run by 3 OS threads to raise contention
-    for (t, calls) in threads.iter().enumerate() {
-        for _copy in 0..3 {
-            let (si, sr, calls, exp, bad, msgs) = (si.clone(), sr.clone(), calls.clone(), exp.clone(), bad.clone(), msgs.clone());
-            hs.push(std::thread::spawn(move || {
-                for _ in 0..rounds {
-                    for (k, c) in calls.iter().enumerate() {
-                        let got = run_call(c, &si, &sr, &msgs);
-                        if got != exp[t][k] {
-                            let mut g = bad.lock().unwrap();
-                            if g.len() < 3 {
-                                g.push(format!("thread {t} call {k} {c:?}: result under real threads differs from the sequential function"));
-                            }
-                            return;
-                        }
-                    }
-                }
-            }));
-        }
-    }
-    for h in hs {
-        let _ = h.join();
-    }
-    YIELD_ON.store(false, Ordering::SeqCst);
-    REAL_THREADS.store(false, Ordering::SeqCst);
-    let v = bad.lock().unwrap().clone();
-    ((rounds * threads.iter().map(Vec::len).sum::<usize>() * 3) as u64, v)
-}
+#[path = "../../../shared/c16_conc.rs"]
+pub mod conc;
+use conc::{explore_mix, mixes, stress_mix};
 
 pub fn run(tier: Tier) -> i32 {
     let ctx = Ctx::new("C16", tier, "model_checking");
@@ -433,9 +211,8 @@ pub fn run(tier: Tier) -> i32 {
     // shuttle uses global state for the yield switch: run the explorations one after the other
     for (c, b, label, th) in &conc_jobs {
         let t0 = std::time::Instant::now();
-        let r = std::panic::catch_unwind(std::panic::AssertUnwindSafe(|| explore_mix(*c, *b, th.clone())));
+        let r = std::panic::catch_unwind(std::panic::AssertUnwindSafe(|| explore_mix(c.name(), *b == Backend::Ring, th.clone())));
         if std::env::var("C16_DEBUG").is_ok() {
-            eprintln!("yields so far {}", YIELDS.load(Ordering::SeqCst));
             eprintln!("{} {:?} {label}: {:?} in {:?}", c.name(), b, r.as_ref().map(|x| x.0).ok(), t0.elapsed());
         }
         match r {
@@ -459,16 +236,39 @@ pub fn run(tier: Tier) -> i32 {
     ctx.add(&ctx.traces, n_sched);
     ctx.add(&ctx.transitions, n_sched * 8);
     // determinism of the controlled exploration: the same mix explored twice gives the same count
-    let (n1, _) = explore_mix(CipherAlg::ChaChaPoly, Backend::Default, mixes()[0].1.clone());
-    let (n2, _) = explore_mix(CipherAlg::ChaChaPoly, Backend::Default, mixes()[0].1.clone());
+    let (n1, _) = explore_mix("ChaChaPoly", false, mixes()[0].1.clone());
+    let (n2, _) = explore_mix("ChaChaPoly", false, mixes()[0].1.clone());
     if n1 != n2 {
         crate::ctx::machinery(&format!("shuttle exploration is not deterministic: {n1} vs {n2} schedules"));
+    }
+    // Synchronisation primitives *inside* snow (none on the pinned tree): when /repo/src mentions any,
+    // the exploration is repeated on a copy of the sources in which std/core sync primitives are mapped
+    // to shuttle's, so that every atomic / lock operation inside snow is a scheduling point.
+    let (files, hits) = scan_sync_primitives("/repo/src");
+    ctx.set("repo_src_files_scanned_for_sync_primitives", json!(files));
+    ctx.set("repo_src_sync_primitive_mentions", json!(hits));
+    if !hits.is_empty() || !quick {
+        match run_mapped_copy(if quick { "quick" } else { "thorough" }) {
+            Ok(v) => {
+                let n = v["schedules"].as_u64().unwrap_or(0);
+                ctx.add(&ctx.states, n);
+                ctx.add(&ctx.evaluations, n);
+                ctx.add(&ctx.traces, n);
+                ctx.count("schedules: shuttle-mapped copy of snow (sync primitives inside snow are scheduling points)", n);
+                for d in v["violations"].as_array().cloned().unwrap_or_default() {
+                    ctx.violation("a concurrent stateless call returned something else than the sequential function (interleaving at a synchronisation primitive inside snow)", d.as_str().unwrap_or("").to_string(), json!({"kind": "mapped"}));
+                }
+            },
+            Err(e) => ctx.note(format!("shuttle-mapped copy not explored: {e} (not a verdict; the seam-level exploration and the free-running sample still ran)")),
+        }
+    } else {
+        ctx.note("no std/core/alloc sync primitive, thread_local or static mut in /repo/src: the shuttle-mapped copy would be identical to snow itself; not rebuilt in the quick tier");
     }
     // labelled sample: free-running real threads on the same bodies
     let rounds = if quick { 3000 } else { 40000 };
     let mut stress_calls = 0;
     for (label, th) in mixes() {
-        let (n, v) = stress_mix(CipherAlg::ChaChaPoly, Backend::Default, th.clone(), rounds);
+        let (n, v) = stress_mix("ChaChaPoly", false, th.clone(), rounds);
         stress_calls += n;
         for d in v {
             ctx.violation("a concurrent stateless call returned something else than the sequential function", format!("ChaChaPoly Default [{label}] (free-running threads): {d}"), json!({"kind": "stress", "mix": label}));
@@ -476,7 +276,7 @@ pub fn run(tier: Tier) -> i32 {
     }
     ctx.count("free_running_thread_calls (sample, not enumeration)", stress_calls);
     ctx.set("schedules_explored", json!(n_sched));
-    ctx.sample(json!({"mix": mixes()[2].0, "threads": mixes()[2].1}));
+    ctx.sample(json!({"mix": mixes()[2].0, "threads": format!("{:?}", mixes()[2].1)}));
     ctx.sample(json!({"sequential": "all 120 orders x 3 repetitions of [W(n1), W(n2), R(n1), R(n2), W(n1)]"}));
     ctx.assume("snow contains no lock, atomic or cell: there is nothing inside a segment for a scheduler to intercept; preemptions inside a segment are covered by the type system (&self, Sync, forbid(unsafe_code)), the exploration is exhaustive at cipher-call seams only");
     ctx.assume("the free-running real-thread run is a sample and is labelled so; it can only add violations, never remove them");
@@ -484,7 +284,53 @@ pub fn run(tier: Tier) -> i32 {
     ctx.finish()
 }
 
+/// (number of files, lines that mention a synchronisation primitive)
+fn scan_sync_primitives(dir: &str) -> (usize, Vec<String>) {
+    let mut files = 0;
+    let mut hits = vec![];
+    let mut stack = vec![std::path::PathBuf::from(dir)];
+    let pats = ["::sync::", "std::thread", "thread_local!", "static mut", "lazy_static", "OnceCell", "OnceLock", "AtomicU", "AtomicI", "AtomicBool", "AtomicPtr", "Mutex", "RwLock"];
+    while let Some(d) = stack.pop() {
+        let Ok(rd) = std::fs::read_dir(&d) else { continue };
+        for e in rd.flatten() {
+            let p = e.path();
+            if p.is_dir() {
+                stack.push(p);
+            } else if p.extension().map_or(false, |x| x == "rs") {
+                files += 1;
+                if let Ok(t) = std::fs::read_to_string(&p) {
+                    for (k, l) in t.lines().enumerate() {
+                        let code = l.split("//").next().unwrap_or("");
+                        if pats.iter().any(|x| code.contains(x)) && hits.len() < 20 {
+                            hits.push(format!("{}:{}: {}", p.display(), k + 1, l.trim()));
+                        }
+                    }
+                }
+            }
+        }
+    }
+    (files, hits)
+}
+
+fn run_mapped_copy(tier: &str) -> Result<serde_json::Value, String> {
+    let out = std::process::Command::new("/verif/harness-c16x/run.sh").arg(tier).output().map_err(|e| e.to_string())?;
+    let text = String::from_utf8_lossy(&out.stdout);
+    let line = text.lines().rev().find(|l| l.starts_with('{')).ok_or("no result")?;
+    let v: serde_json::Value = serde_json::from_str(line).map_err(|e| e.to_string())?;
+    match v.get("error") {
+        Some(e) => Err(e.as_str().unwrap_or("error").to_string()),
+        None => Ok(v),
+    }
+}
+
 pub fn replay(case: &serde_json::Value) -> Result<(), String> {
+    if case["kind"] == "mapped" {
+        let v = run_mapped_copy("quick")?;
+        return match v["violations"].as_array().and_then(|a| a.first()) {
+            Some(d) => Err(d.as_str().unwrap_or("").to_string()),
+            None => Ok(()),
+        };
+    }
     match case["kind"].as_str() {
         Some("conc") | Some("stress") => {
             let label = case["mix"].as_str().unwrap_or("");
@@ -492,10 +338,10 @@ pub fn replay(case: &serde_json::Value) -> Result<(), String> {
             let b: Backend = serde_json::from_value(case["backend"].clone()).unwrap_or(Backend::Default);
             let th = mixes().into_iter().find(|m| m.0 == label).ok_or("bad mix")?.1;
             if case["kind"] == "stress" {
-                let (_, v) = stress_mix(c, b, th, 40000);
+                let (_, v) = stress_mix(c.name(), b == Backend::Ring, th, 40000);
                 return v.first().map_or(Ok(()), |d| Err(d.clone()));
             }
-            let (_, v) = explore_mix(c, b, th);
+            let (_, v) = explore_mix(c.name(), b == Backend::Ring, th);
             v.first().map_or(Ok(()), |d| Err(d.clone()))
         },
         _ => {
